@@ -60,6 +60,8 @@ def good_sargs(rng):
     if k == 5: return ('str', rng.choice(['rgb(1,2,3)', 'bg_rgb(0x102030)', 'ul_color256(9)', 'dul_rgb(300, 0, 5)',
                                           'fg_colour256(0x10)', 'rgb([1, 2, 3])', 'color256(214)']))
     if k == 6: return ('obj', rng.choice(['1', '31', '34', '1;31', '38;5;214', '38;5;300', '22', '4', '+1', '2;', '10']))
+    if k == 12: return rng.choice([('obj', '3H'), ('str', '[1m'), ('obj', 'x'), ('str', '[2J'), ('obj', '5~'), ('str', '[38;5;'),
+                                   ('list', [('obj', '1A'), ('obj', '2B')]), ('list', [('str', '[x'), ('str', '[y'), ('member', 'BOLD')])])
     if k == 7: return ('list', [good_sargs(rng) for _ in range(rng.randrange(0, 3))])
     if k == 8: return ('list', [('int', 38), ('int', 5), ('int', rng.choice([0, 214, 255, 256]))])
     if k == 9: return ('tuple', [('member', rng.choice(MEMBERS)), ('int', rng.choice([1, 31, 34]))])
@@ -325,7 +327,7 @@ class Runner:
             s = self.text(esc=rng.random() < 0.15)
         k = rng.choice([0, 0, 1, 1, 2])
         sargs = [(bad_sargs(rng) if rng.random() < 0.08 else good_sargs(rng)) for _ in range(k)]
-        inp = P.line('new', P.e_str(s), [len(sargs)], *[P.e_sarg(a) for a in sargs])
+        inp = self._inp = P.line('new', P.e_str(s), [len(sargs)], *[P.e_sarg(a) for a in sargs])
         out = self.call(lambda: self.A(s, *[P.build_sarg(a, self.mod) for a in sargs]))
         self.count('new', out)
         viol = self.c09(out, 'new', repr((s, sargs)))
@@ -342,7 +344,7 @@ class Runner:
         rng = self.rng
         sargs = [good_sargs(rng)] if rng.random() < 0.3 else []
         ids = P.InIds()
-        inp = P.line('copynew', P.e_astr(x, ids), [len(sargs)], *[P.e_sarg(a) for a in sargs])
+        inp = self._inp = P.line('copynew', P.e_astr(x, ids), [len(sargs)], *[P.e_sarg(a) for a in sargs])
         kind = rng.choice(['ctor', 'copy', 'AnsiStr'])
         def run():
             if kind == 'copy' and not sargs:
@@ -371,7 +373,7 @@ class Runner:
         if rng.random() < 0.3: en = None
         top = rng.random() < 0.6
         ids = P.InIds()
-        inp = P.line('apply', P.e_astr(x, ids), P.e_sarg(a), P.e_optint(st), P.e_optint(en), P.e_bool(top))
+        inp = self._inp = P.line('apply', P.e_astr(x, ids), P.e_sarg(a), P.e_optint(st), P.e_optint(en), P.e_bool(top))
         pre = O.Snap(x)
         arg = P.build_sarg(a, self.mod)
         arg_before = copy.copy(arg) if isinstance(arg, list) else None
@@ -449,7 +451,7 @@ class Runner:
         if rng.random() < 0.3: st = 0
         if rng.random() < 0.3: en = None
         ids = P.InIds()
-        inp = P.line('remove', P.e_astr(x, ids), P.e_optsarg(a), P.e_optint(st), P.e_optint(en))
+        inp = self._inp = P.line('remove', P.e_astr(x, ids), P.e_optsarg(a), P.e_optint(st), P.e_optint(en))
         pre = O.Snap(x)
         arg = None if a is None else P.build_sarg(a, self.mod)
         def run():
@@ -502,7 +504,7 @@ class Runner:
     def op_clear(self):
         x = self.pick()
         ids = P.InIds()
-        inp = P.line('clear', P.e_astr(x, ids))
+        inp = self._inp = P.line('clear', P.e_astr(x, ids))
         out, fv = self.framed([x], lambda: self.call(lambda: (x.clear_formatting(), x)[1]))
         self.count('clear', out)
         viol = self.c09(out, 'clear', '') + fv
@@ -516,7 +518,7 @@ class Runner:
         x = self.pick()
         a, b = self.bound(x), self.bound(x)
         ids = P.InIds()
-        inp = P.line('slice', P.e_astr(x, ids), P.e_optint(a), P.e_optint(b))
+        inp = self._inp = P.line('slice', P.e_astr(x, ids), P.e_optint(a), P.e_optint(b))
         how = rng.choice(['getitem', 'clip', 'getitem'])
         pre = O.Snap(x, with_render=False)
         out, fv = self.framed([], lambda: self.call(lambda: x[a:b] if how == 'getitem' else x.clip(a, b)))
@@ -553,7 +555,7 @@ class Runner:
         n = len(x._s)
         i = rng.choice([0, -1, n - 1, -n, n, -n - 1, rng.randint(-n - 1, n + 1)])
         ids = P.InIds()
-        inp = P.line('index', P.e_astr(x, ids), P.e_int(i))
+        inp = self._inp = P.line('index', P.e_astr(x, ids), P.e_int(i))
         pre = O.Snap(x, with_render=False)
         out, fv = self.framed([], lambda: self.call(lambda: x[i]))
         self.count('index', out)
@@ -573,7 +575,7 @@ class Runner:
     def op_iter(self):
         x = self.pick()
         ids = P.InIds()
-        inp = P.line('iter', P.e_astr(x, ids))
+        inp = self._inp = P.line('iter', P.e_astr(x, ids))
         pre = O.Snap(x, with_render=False)
         out, fv = self.framed([], lambda: self.call(lambda: list(x)))
         self.count('iter', out)
@@ -612,13 +614,25 @@ class Runner:
             a = src[:k]
             kv = ('A', src[k:])
             self._split_src = (src, k)
+        elif rng.random() < 0.2 and len(a._s) > 0:
+            # directed seam: the right operand starts with the settings that end the left one, in the same
+            # or another order, some of them stopping early / equal-valued ones nested inside
+            ts = O.texts(O.acts(a)[-1])
+            rng.shuffle(ts) if rng.random() < 0.5 else None
+            t = self.text(1, 4)
+            b = self.A(t, *[self.mod.AnsiSetting(q) for q in ts]) if ts else self.A(t, 'red')
+            if len(t) > 1 and ts and rng.random() < 0.6:
+                b.remove_formatting(self.mod.AnsiSetting(rng.choice(ts)), 1)
+            if len(t) > 2 and ts and rng.random() < 0.5:
+                b.apply_formatting(self.mod.AnsiSetting(rng.choice(ts)), 1, 2)
+            kv = ('A', b)
         else:
             kv = self.operand()
         split_src = getattr(self, '_split_src', None)
         self._split_src = None
         b_astr = self.as_astr(kv)
         ids = P.InIds()
-        inp = P.line('iadd', P.e_astr(a, ids), P.e_astr(b_astr, ids))
+        inp = self._inp = P.line('iadd', P.e_astr(a, ids), P.e_astr(b_astr, ids))
         inplace = rng.random() < 0.4 and split_src is None
         pre_a, pre_b = O.Snap(a), O.Snap(b_astr)
         if inplace:
@@ -637,6 +651,15 @@ class Runner:
         if out[0] == 'ok':
             r = out[1]
             viol += self.oracle_concat(pre_a, pre_b, r, kv)
+            try:
+                z = r + 'q'
+                if z.ansi_settings_at(len(r._s)):
+                    viol.append(('C05', 'iadd_plain_right', 'plain text appended to the result reports %r' % (z.settings_at(len(r._s)),)))
+                z2 = self.A.join(r, 'q')
+                if z2.ansi_settings_at(len(r._s)):
+                    viol.append(('C05', 'iadd_plain_right', 'join(result, plain) reports %r' % (z2.settings_at(len(r._s)),)))
+            except Exception as e:   # noqa
+                viol.append(('C05', 'iadd_plain_right', 'appending plain text to the result raised %r' % (e,)))
             viol += self.health(r, 'concat')
             if kv[0] != 'A' or kv[1] is not a or not inplace:
                 try:
@@ -681,7 +704,7 @@ class Runner:
         kvs = [self.operand() for _ in range(k)]
         vals = [self.as_astr(kv) for kv in kvs]
         ids = P.InIds()
-        inp = P.line('join', [k], *[P.e_astr(v, ids) for v in vals])
+        inp = self._inp = P.line('join', [k], *[P.e_astr(v, ids) for v in vals])
         out, fv = self.framed([], lambda: self.call(lambda: self.A.join(*[kv[1] for kv in kvs])))
         self.count('join', out)
         viol = self.c09(out, 'join', '') + fv
@@ -710,11 +733,11 @@ class Runner:
         inplace = rng.random() < 0.4
         ids = P.InIds()
         if kind == 'zfill':
-            inp = P.line('zfill', P.e_astr(x, ids), P.e_int(w))
+            inp = self._inp = P.line('zfill', P.e_astr(x, ids), P.e_int(w))
             fill, ext = '0', True
             fn = lambda: x.zfill(w, inplace)
         else:
-            inp = P.line(kind, P.e_astr(x, ids), P.e_int(w), P.e_str(fill), P.e_bool(ext))
+            inp = self._inp = P.line(kind, P.e_astr(x, ids), P.e_int(w), P.e_str(fill), P.e_bool(ext))
             fn = lambda: getattr(x, kind)(w, fill, inplace, ext)
         pre = O.Snap(x)
         out, fv = self.framed([x] if inplace else [], lambda: self.call(fn))
@@ -776,7 +799,7 @@ class Runner:
         spec = self.spec() if rng.random() < 0.5 else rng.choice([None, ''])
         o, rs, re_ = rng.random() < 0.6, rng.random() < 0.4, rng.random() < 0.7
         ids = P.InIds()
-        inp = P.line('tostr', P.e_astr(x, ids), P.e_optstr(spec), P.e_bool(o), P.e_bool(rs), P.e_bool(re_))
+        inp = self._inp = P.line('tostr', P.e_astr(x, ids), P.e_optstr(spec), P.e_bool(o), P.e_bool(rs), P.e_bool(re_))
         pre = O.Snap(x)
         out, fv = self.framed([], lambda: self.call(lambda: x.to_str(spec, o, rs, re_)))
         self.count('tostr', out)
@@ -862,7 +885,7 @@ class Runner:
         if rng.random() < 0.4: en = None
         rev = rng.random() < 0.35
         ids = P.InIds()
-        inp = P.line('find', P.e_astr(x, ids), P.e_sarg(a), P.e_optint(st), P.e_optint(en), P.e_bool(rev))
+        inp = self._inp = P.line('find', P.e_astr(x, ids), P.e_sarg(a), P.e_optint(st), P.e_optint(en), P.e_bool(rev))
         arg = P.build_sarg(a, self.mod)
         out, fv = self.framed([], lambda: self.call(lambda: x.find_settings(arg, 0 if st is None else st, en, rev)))
         self.count('find', out)
@@ -881,7 +904,7 @@ class Runner:
         n = len(x._s)
         i = self.rng.choice([0, -1, n - 1, n, n + 3, self.rng.randint(-2, n + 1)])
         ids = P.InIds()
-        inp = P.line('settingsat', P.e_astr(x, ids), P.e_int(i))
+        inp = self._inp = P.line('settingsat', P.e_astr(x, ids), P.e_int(i))
         out = self.call(lambda: (x.ansi_settings_at(i), x.settings_at(i)))
         self.count('settingsat', out)
         viol = self.c09(out, 'settingsat', repr(i))
@@ -897,7 +920,7 @@ class Runner:
     def op_simplify(self):
         x = self.pick()
         ids = P.InIds()
-        inp = P.line('simplify', P.e_astr(x, ids))
+        inp = self._inp = P.line('simplify', P.e_astr(x, ids))
         pre = O.Snap(x)
         pre_effs = O.effs(x)
         ok_scope = '\x1b' not in x._s and all(T.is_group(t) or not O.grammar_valid(t) for ac in pre.acts for t in O.texts(ac))
@@ -932,7 +955,7 @@ class Runner:
         """AnsiString(str(v)) — recorded as a `new` step on the rendering"""
         x = self.pick()
         s = str(x)
-        inp = P.line('new', P.e_str(s), [0])
+        inp = self._inp = P.line('new', P.e_str(s), [0])
         out = self.call(lambda: self.A(s))
         self.count('roundtrip', out)
         viol = self.c09(out, 'roundtrip', repr(s))
@@ -963,7 +986,7 @@ class Runner:
         chars = rng.choice([None, None, ' ', 'ab', 'a \t', '', ' \n'])
         inplace = rng.random() < 0.3
         ids = P.InIds()
-        inp = P.line('strip', P.e_astr(x, ids), P.e_optstr(chars), P.e_bool(kind != 'rstrip'), P.e_bool(kind != 'lstrip'), P.e_bool(inplace))
+        inp = self._inp = P.line('strip', P.e_astr(x, ids), P.e_optstr(chars), P.e_bool(kind != 'rstrip'), P.e_bool(kind != 'lstrip'), P.e_bool(inplace))
         pre = O.Snap(x)
         out, fv = self.framed([x] if inplace else [], lambda: self.call(lambda: getattr(x, kind)(chars, inplace)))
         self.count(kind, out)
@@ -996,7 +1019,7 @@ class Runner:
         p = rng.choice(['', 'a', t[:2], t[-2:], t, t[:1] + 'q', t[-1:]])
         inplace = rng.random() < 0.3
         ids = P.InIds()
-        inp = P.line(kind, P.e_astr(x, ids), P.e_str(p))
+        inp = self._inp = P.line(kind, P.e_astr(x, ids), P.e_str(p))
         pre = O.Snap(x)
         out, fv = self.framed([x] if inplace else [], lambda: self.call(lambda: getattr(x, kind)(p, inplace)))
         self.count(kind, out)
@@ -1020,7 +1043,7 @@ class Runner:
         if kind in ('split', 'rsplit'):
             sep = None if rng.random() < 0.35 else self.pattern(x)
             m = rng.choice([-1, -1, 0, 1, 2, 5])
-            inp = P.line('split', P.e_astr(x, ids), P.e_optstr(sep), P.e_int(m), P.e_bool(kind == 'rsplit'))
+            inp = self._inp = P.line('split', P.e_astr(x, ids), P.e_optstr(sep), P.e_int(m), P.e_bool(kind == 'rsplit'))
             fn = lambda: getattr(x, kind)(sep, m)
             want = None
             try:
@@ -1030,14 +1053,14 @@ class Runner:
             desc = '%s(%r,%r) on %r' % (kind, sep, m, t)
         elif kind == 'splitlines':
             keep = rng.random() < 0.5
-            inp = P.line('splitlines', P.e_astr(x, ids), P.e_bool(keep))
+            inp = self._inp = P.line('splitlines', P.e_astr(x, ids), P.e_bool(keep))
             fn = lambda: x.splitlines(keep)
             want = t.splitlines(keep)
             sep = None
             desc = 'splitlines(%r) on %r' % (keep, t)
         else:
             sep = self.pattern(x)
-            inp = P.line('partition', P.e_astr(x, ids), P.e_str(sep), P.e_bool(kind == 'rpartition'))
+            inp = self._inp = P.line('partition', P.e_astr(x, ids), P.e_str(sep), P.e_bool(kind == 'rpartition'))
             fn = lambda: list(getattr(x, kind)(sep))
             want = None
             if sep:
@@ -1081,11 +1104,11 @@ class Runner:
         inplace = rng.random() < 0.3
         ids = P.InIds()
         if new[0] == 's':
-            inp = P.line('replace', P.e_astr(x, ids), P.e_str(old), [0], P.e_str(new[1]), P.e_int(count))
+            inp = self._inp = P.line('replace', P.e_astr(x, ids), P.e_str(old), [0], P.e_str(new[1]), P.e_int(count))
             newtext = new[1]
         else:
             nv = new[1] if new[0] == 'A' else new[1]._s
-            inp = P.line('replace', P.e_astr(x, ids), P.e_str(old), [1], P.e_astr(nv, ids), P.e_int(count))
+            inp = self._inp = P.line('replace', P.e_astr(x, ids), P.e_str(old), [1], P.e_astr(nv, ids), P.e_int(count))
             newtext = nv._s
         pre = O.Snap(x)
         pre_new = O.Snap(self.as_astr(new)) if new[0] != 's' else None
@@ -1144,7 +1167,7 @@ class Runner:
         inplace = rng.random() < 0.3
         t2 = getattr(x._s, kind)()
         ids = P.InIds()
-        inp = P.line('maptext', P.e_astr(x, ids), P.e_str(t2))
+        inp = self._inp = P.line('maptext', P.e_astr(x, ids), P.e_str(t2))
         pre = O.Snap(x)
         out, fv = self.framed([x] if inplace else [], lambda: self.call(lambda: getattr(x, kind)(inplace)))
         self.count(kind, out)
@@ -1166,7 +1189,7 @@ class Runner:
         n = len(x._s)
         t2 = self.text(0, n + 3)
         ids = P.InIds()
-        inp = P.line('assign', P.e_astr(x, ids), P.e_str(t2))
+        inp = self._inp = P.line('assign', P.e_astr(x, ids), P.e_str(t2))
         pre = O.Snap(x)
         out, fv = self.framed([x], lambda: self.call(lambda: (x.assign_str(t2), x)[1]))
         self.count('assign', out)
@@ -1188,7 +1211,7 @@ class Runner:
         x = self.pick()
         k = self.rng.choice([0, 1, 4, 8, -1])
         ids = P.InIds()
-        inp = P.line('expandtabs', P.e_astr(x, ids), P.e_int(k))
+        inp = self._inp = P.line('expandtabs', P.e_astr(x, ids), P.e_int(k))
         pre = O.Snap(x)
         out, fv = self.framed([], lambda: self.call(lambda: x.expandtabs(k)))
         self.count('expandtabs', out)
@@ -1269,10 +1292,10 @@ class Runner:
             spans = spans[:count]
         if un:
             arg_ast = None if (not fmt or None in fmt) else ('tuple', fmt)
-            inp = P.line('unfmatch', P.e_astr(x, ids), P.e_optsarg(arg_ast), sp)
+            inp = self._inp = P.line('unfmatch', P.e_astr(x, ids), P.e_optsarg(arg_ast), sp)
         else:
             arg_ast = ('tuple', fmt)
-            inp = P.line('fmatch', P.e_astr(x, ids), P.e_sarg(arg_ast), sp)
+            inp = self._inp = P.line('fmatch', P.e_astr(x, ids), P.e_sarg(arg_ast), sp)
         args = [None if f is None else P.build_sarg(f, self.mod) for f in fmt]
         ref = x.copy()
         pre = O.Snap(x)
@@ -1390,6 +1413,10 @@ class Runner:
     OPS = ['new', 'copy', 'apply', 'remove', 'clear', 'slice', 'index', 'iter', 'concat', 'join', 'pad', 'tostr',
            'find', 'settingsat', 'simplify', 'roundtrip', 'strip', 'affix', 'split', 'replace', 'case', 'assign',
            'expandtabs', 'query', 'match', 'twin']
+    OP_PROP = {'new': 'C02', 'apply': 'C06', 'remove': 'C07', 'slice': 'C04', 'index': 'C04', 'iter': 'C04',
+               'concat': 'C05', 'join': 'C05', 'pad': 'C12', 'simplify': 'C03', 'roundtrip': 'C03', 'strip': 'C11',
+               'affix': 'C11', 'split': 'C11', 'replace': 'C11', 'assign': 'C11', 'expandtabs': 'C11', 'match': 'C16',
+               'twin': 'C13', 'find': 'C17', 'tostr': 'C01'}
     BASE_W = {'new': 3, 'copy': 2, 'apply': 10, 'remove': 7, 'clear': 1, 'slice': 7, 'index': 2, 'iter': 1,
               'concat': 8, 'join': 2, 'pad': 6, 'tostr': 8, 'find': 4, 'settingsat': 2, 'simplify': 3,
               'roundtrip': 3, 'strip': 3, 'affix': 2, 'split': 4, 'replace': 4, 'case': 2, 'assign': 2,
@@ -1412,6 +1439,7 @@ class Runner:
             if self.tainted:
                 break
             nm = self.rng.choices(names, ws)[0]
+            self._inp = None
             try:
                 getattr(self, 'op_' + nm)()
             except Timeout:
@@ -1421,8 +1449,12 @@ class Runner:
                 # (it fails the library's self-check or cannot be rendered) — that is a C09 violation
                 import traceback
                 tb = traceback.format_exc().strip().split('\n')
-                self.emit('noop', None, None, 'observation of a live value failed during op %s' % nm,
-                          [('C09', 'self_check', 'a reachable value can no longer be observed: %r | %s' % (e, ' / '.join(tb[-4:])[:400]))])
+                vs = [('C09', 'self_check', 'a reachable value can no longer be observed: %r | %s' % (e, ' / '.join(tb[-4:])[:400]))]
+                own = self.OP_PROP.get(nm)
+                if own:
+                    # the operation's own result (or receiver) is broken: its property fails on this input
+                    vs.append((own, 'result_unobservable', 'after %s a value raises when queried: %r' % (nm, e)))
+                self.emit('noop-' + nm, getattr(self, '_inp', None), 'impl: observation failed', 'observation of a live value failed during op %s' % nm, vs)
                 self.tainted = True
             for v in self.live:
                 self.stats['text_len'][len(v._s)] = self.stats['text_len'].get(len(v._s), 0) + 1
